@@ -159,7 +159,7 @@ def _namedexpr_last(node):
     return (
         bool(node.body)
         and len(node.body) == 1
-        and isinstance(node.body[-1].value, ast.NamedExpr)
+        and isinstance(getattr(node.body[-1], "value", None), ast.NamedExpr)
     )
 
 
